@@ -119,3 +119,55 @@ pub fn exec_util(ev: &mut Value) {
         _ => set(ev, "out", json!(NA)),
     }
 }
+
+/// builds a std container of the given shape, returns (reported bytes, live heap bytes it keeps, its own size)
+pub fn space_std(shape: &str, lens: &[usize], live0: i64) -> Option<(usize, i64, usize)> {
+    use crate::alloc::live_bytes;
+    use qwt::{BitVector, SpaceUsage};
+    macro_rules! done {
+        ($v:expr) => {{
+            let v = $v;
+            let heap = live_bytes() - live0;
+            let rep = v.space_usage_byte();
+            let selfsz = std::mem::size_of_val(&v);
+            drop(v);
+            Some((rep, heap, selfsz))
+        }};
+    }
+    let n0 = lens.first().copied().unwrap_or(0);
+    match shape {
+        "vec_u64" => done!({
+            let mut v: Vec<u64> = Vec::with_capacity(n0);
+            v.extend((0..n0 as u64).map(|x| x * 7));
+            v
+        }),
+        "vec_u8_spare" => done!({
+            // capacity larger than the length: the spare capacity is retained memory
+            let mut v: Vec<u8> = Vec::with_capacity(n0 * 2 + 10);
+            v.extend((0..n0).map(|x| x as u8));
+            v
+        }),
+        "box_u32" => done!((0..n0 as u32).collect::<Vec<u32>>().into_boxed_slice()),
+        "box_u128" => done!((0..n0 as u128).collect::<Vec<u128>>().into_boxed_slice()),
+        "box_vec_u64" => done!(lens
+            .iter()
+            .map(|&l| {
+                let mut v: Vec<u64> = Vec::with_capacity(l);
+                v.extend(0..l as u64);
+                v
+            })
+            .collect::<Vec<_>>()
+            .into_boxed_slice()),
+        "box_box_u16" => done!(lens
+            .iter()
+            .map(|&l| (0..l).map(|x| x as u16).collect::<Vec<u16>>().into_boxed_slice())
+            .collect::<Vec<_>>()
+            .into_boxed_slice()),
+        "box_bv" => done!(lens
+            .iter()
+            .map(|&l| (0..l).map(|x| x % 3 == 0).collect::<BitVector>())
+            .collect::<Vec<_>>()
+            .into_boxed_slice()),
+        _ => None,
+    }
+}
